@@ -886,7 +886,7 @@ class _MIPS32_ELF(ABI):
         return self.get_register("sp")
 
     def temporary_label_prefix(self) -> str:
-        return ".L"
+        return "$L"
 
     def default_dwarf_eh_return_column(self) -> int:
         return 31
